@@ -67,7 +67,7 @@ def finding(key, targets, flags):
 
 NATIVE_NO_TRAPS = ["no-int-div-by-zero", "no-div-s-overflow", "no-trapping-trunc-out-of-range", "no-mem-oob",
                    "no-call-indirect-trap", "no-unreachable"]
-finding("native-trap-kills-process", ["native"], NATIVE_NO_TRAPS)
+finding("native-no-trap-mechanism", ["native"], NATIVE_NO_TRAPS)
 finding("native-rem-s-overflow-sigfpe", ["native"], ["no-rem-s-overflow"])
 finding("native-float-compare-unordered", ["native"], ["float-cmp-gt-ge-only"])
 finding("py-trunc-out-of-range-no-trap", ["python"], ["no-trapping-trunc-out-of-range"])
@@ -118,7 +118,7 @@ def plan(tier, seed, avoid):
 def floors(tier):
     return {"evaluations": 20000, "distinct_nontrivial": 8000,
             "observed.target.python.calls": 8000, "observed.target.native.calls": 8000,
-            "observed.gen.modules": 300, "observed.matrix.ops": 170,
+            "observed.gen.modules": 300, "observed.matrix.ops": 130,
             "observed.opcodes_executed_python": 150, "observed.opcodes_executed_native": 150,
             "observed.reference.trap": 200, "observed.agree.trap.python": 50,
             "observed.build.components": 100, "observed.build.bytes": 100}
@@ -418,7 +418,7 @@ def run_gen(sh, spec):
         if len(sh.samples) < 2 and mods:
             m = mods[0]
             sh.samples.append({"target": t, "module_wat": g.to_wat(m["desc"])[:1200], "calls": m["calls"][:3],
-                               "v8": ref[m["id"]]["calls"][:3]})
+                               "v8": ref[m["id"]].get("calls", [ref[m["id"]].get("inst")])[:3]})
 
 
 # ---------------------------------------------------------------------------
@@ -627,4 +627,166 @@ def run_shard(spec):
     return sh.result()
 
 
-PROBES = {}
+
+
+
+# ---------------------------------------------------------------------------
+# known-finding probes: minimal witnesses, expected values from the spec (not from V8)
+
+def _f64(x):
+    from vlib import wasmgen as g
+    return "%016x" % g.f64_bits(x)
+
+
+def _witness_modules():
+    """-> {module id: (desc, calls)}; every witness is one exported function."""
+    from vlib import wasmgen as g
+
+    def mod(funcs, **kw):
+        d = {"types": [], "imports": [], "funcs": [], "table": None, "memory": None, "globals": [], "exports": [],
+             "start": None, "elems": [], "datas": [], "custom": []}
+        d.update(kw)
+        nimp = len([i for i in d["imports"] if i["kind"] == "func"])
+        for k, (name, params, res, body) in enumerate(funcs):
+            sig = [list(params), [res] if res else []]
+            if sig not in d["types"]:
+                d["types"].append(sig)
+            d["funcs"].append({"type": d["types"].index(sig), "locals": [], "body": body})
+            d["exports"].append({"name": name, "kind": "func", "index": nimp + k})
+        return d
+
+    def binop(name, op, t, res):
+        return (name, [t, t], res, [["local.get", 0], ["local.get", 1], [op]])
+
+    def unop(name, op, t, res):
+        return (name, [t], res, [["local.get", 0], [op]])
+
+    nan, ninf = "7ff8000000000000", "7ff0000000000000"
+    mods = {}
+    mods["div0"] = (mod([binop("divs", "i32.div_s", "i32", "i32")]),
+                    [{"f": "divs", "args": [["i32", "1"], ["i32", "0"]], "ret": "i32"}])
+    mods["rems"] = (mod([binop("rems", "i32.rem_s", "i32", "i32")]),
+                    [{"f": "rems", "args": [["i32", "-2147483648"], ["i32", "-1"]], "ret": "i32"}])
+    mods["divov"] = (mod([binop("divs", "i32.div_s", "i32", "i32")]),
+                     [{"f": "divs", "args": [["i32", "-2147483648"], ["i32", "-1"]], "ret": "i32"}])
+    mods["unreach"] = (mod([("u", [], "i32", [["unreachable"]])]), [{"f": "u", "args": [], "ret": "i32"}])
+    pure = mod([binop("feq", "f64.eq", "f64", "i32"), unop("trunc", "i32.trunc_f64_s", "f64", "i32"),
+                binop("fdiv", "f64.div", "f64", "f64"), unop("ceil", "f64.ceil", "f64", "f64"),
+                unop("floor", "f64.floor", "f64", "f64"), binop("fmin", "f64.min", "f64", "f64"),
+                unop("sqrt", "f64.sqrt", "f64", "f64"), unop("sat", "i32.trunc_sat_f64_s", "f64", "i32"),
+                ("f32sum", ["f32", "f32"], "f32", [["local.get", 0], ["local.get", 1], ["f32.add"], ["local.get", 0],
+                                                   ["f32.sub"]])])
+    mods["pure"] = (pure, [
+        {"f": "feq", "args": [["f64", nan], ["f64", _f64(1.0)]], "ret": "i32"},
+        {"f": "trunc", "args": [["f64", _f64(1e30)]], "ret": "i32"},
+        {"f": "fdiv", "args": [["f64", _f64(1.0)], ["f64", _f64(0.0)]], "ret": "f64"},
+        {"f": "ceil", "args": [["f64", _f64(-0.5)]], "ret": "f64"},
+        {"f": "floor", "args": [["f64", nan]], "ret": "f64"},
+        {"f": "fmin", "args": [["f64", _f64(0.0)], ["f64", nan]], "ret": "f64"},
+        {"f": "sqrt", "args": [["f64", _f64(-1.0)]], "ret": "f64"},
+        {"f": "sat", "args": [["f64", nan]], "ret": "i32"},
+        {"f": "f32sum", "args": [["f32", "4b800000"], ["f32", "3f800000"]], "ret": "f32"}])
+    mods["deadloop"] = (mod([("d", [], None, [["br", 0], ["loop", ""], ["end"]])]), [{"f": "d", "args": [], "ret": None}])
+    mods["impelem"] = (mod([("x", [], "i32", [["i32.const", 5]])],
+                           types=[[["i32"], ["i32"]]],
+                           imports=[{"module": "env", "name": "hi32", "kind": "func", "type": 0}],
+                           table={"min": 1, "max": 1}, elems=[{"offset": ["i32.const", 0], "funcs": [0]}]),
+                       [{"f": "x", "args": [], "ret": "i32"}])
+    mods["oob"] = (mod([("ld", ["i32"], "i32", [["local.get", 0], ["i32.load", 2, 0]])], memory={"min": 1, "max": 1}),
+                   [{"f": "ld", "args": [["i32", "-4"]], "ret": "i32"}])
+    mods["infconst"] = (mod([("c", [], "f64", [["f64.const", int(ninf, 16)]])]), [{"f": "c", "args": [], "ret": "f64"}])
+    fg = mod([("x", [], "i32", [["i32.const", 5]])], globals=[{"typ": "f64", "mut": True, "init": ["f64.const", g.f64_bits(2.5)]}])
+    fg["exports"].append({"name": "g0", "kind": "global", "index": 0})
+    mods["fglobal"] = (fg, [{"f": "x", "args": [], "ret": "i32"}])
+    sig = mod([("takesf", ["f32"], "i32", [["i32.const", 7]]),
+               ("ci", ["i32"], "i32", [["local.get", 0], ["i32.const", 0], ["call_indirect", 1]])],
+              table={"min": 1, "max": 1}, elems=[{"offset": ["i32.const", 0], "funcs": [0]}])
+    assert sig["types"][1] == [["i32"], ["i32"]]
+    mods["sig"] = (sig, [{"f": "ci", "args": [["i32", "3"]], "ret": "i32"}])
+    return mods
+
+
+_WITNESS = {}
+
+
+def witness(target, name):
+    """-> (inst text, [call texts], end record) of witness module `name` on `target`; 'dead:rc' for a death."""
+    import base64
+    from vlib import wasmgen as g
+
+    if target not in _WITNESS:
+        mods = _witness_modules()
+        want = {"python": ["divov", "pure", "deadloop", "impelem", "oob", "infconst", "fglobal", "sig", "unreach"],
+                "native": ["div0", "rems", "unreach", "pure", "deadloop"]}[target]
+        jobs = []
+        for n in want:
+            desc, calls = mods[n]
+            if target == "native" and n == "pure":
+                calls = [c for c in calls if c["f"] in ("feq", "ceil", "fmin")]
+            gl, mem = export_info(desc)
+            jobs.append({"id": n, "desc": desc, "build": "bytes", "wasm": base64.b64encode(g.encode(desc)).decode("ascii"),
+                         "calls": calls, "globals": gl, "memory": mem})
+        got, disc = run_ppci(target, jobs, os.environ["VERIF_TMP"], "probe")
+        _WITNESS[target] = (got, {j["id"]: j for j in jobs})
+    got, jobs = _WITNESS[target]
+    r = got.get(name)
+    if r is None:
+        raise RuntimeError("witness %s not run on %s" % (name, target))
+    calls = []
+    for k, c in enumerate(jobs[name]["calls"]):
+        if k in r["calls"]:
+            calls.append(r["calls"][k])
+        elif r["dead"] and r["dead"]["where"] == k:
+            calls.append("dead:rc%s" % r["dead"]["signal"])
+        else:
+            calls.append("not-run")
+    return r["inst"], dict(zip([c["f"] for c in jobs[name]["calls"]], calls)), r["end"]
+
+
+def _expect(target, mod, fn, want, what):
+    inst, calls, end = witness(target, mod)
+    got = calls.get(fn, "not-run") if inst == "ok" else "instantiate: %s" % inst
+    if want == "trap":
+        ok = got.startswith(("trap:", "exc:"))
+    else:
+        ok = got == want
+    return None if ok else "%s target: %s gives %s, spec: %s" % (target, what, got, want)
+
+
+def probe_native_traps():
+    a = _expect("native", "div0", "divs", "trap", "i32.div_s(1, 0)")
+    b = _expect("native", "unreach", "u", "trap", "unreachable")
+    return "; ".join(x for x in (a, b) if x) or None
+
+
+PROBES = {
+    "native-no-trap-mechanism": probe_native_traps,
+    "native-rem-s-overflow-sigfpe": lambda: _expect("native", "rems", "rems", "0", "i32.rem_s(INT_MIN, -1)"),
+    "native-float-compare-unordered": lambda: _expect("native", "pure", "feq", "0", "f64.eq(nan, 1.0)"),
+    "py-trunc-out-of-range-no-trap": lambda: _expect("python", "pure", "trunc", "trap", "i32.trunc_f64_s(1e30)"),
+    "py-div-s-overflow-no-trap": lambda: _expect("python", "divov", "divs", "trap", "i32.div_s(INT_MIN, -1)"),
+    "py-float-div-by-zero-raises": lambda: _expect("python", "pure", "fdiv", "7ff0000000000000", "f64.div(1.0, 0.0)"),
+    "rt-rounding-nan-negative-zero": lambda: "; ".join(x for x in (
+        _expect("python", "pure", "ceil", "8000000000000000", "f64.ceil(-0.5)"),
+        _expect("python", "pure", "floor", "nan", "f64.floor(nan)"),
+        _expect("native", "pure", "ceil", "8000000000000000", "f64.ceil(-0.5)")) if x) or None,
+    "rt-min-max-nan-signed-zero": lambda: "; ".join(x for x in (
+        _expect("python", "pure", "fmin", "nan", "f64.min(0.0, nan)"),
+        _expect("native", "pure", "fmin", "nan", "f64.min(0.0, nan)")) if x) or None,
+    "rt-sqrt-negative-raises": lambda: _expect("python", "pure", "sqrt", "nan", "f64.sqrt(-1.0)"),
+    "rt-trunc-sat-nan-raises": lambda: _expect("python", "pure", "sat", "0", "i32.trunc_sat_f64_s(nan)"),
+    "wasm2ir-loop-in-dead-code-crash": lambda: "; ".join(x for x in (
+        _expect("python", "deadloop", "d", "void", "call of (func br 0 loop end)"),
+        _expect("native", "deadloop", "d", "void", "call of (func br 0 loop end)")) if x) or None,
+    "py-imported-func-in-elem-keyerror": lambda: _expect("python", "impelem", "x", "5",
+                                                         "module with an imported function in an element segment"),
+    "py-memory-oob-no-trap": lambda: _expect("python", "oob", "ld", "trap", "i32.load at address 0xfffffffc of a 1-page memory"),
+    "py-float-const-inf-nan-nameerror": lambda: _expect("python", "infconst", "c", "7ff0000000000000", "f64.const inf"),
+    "py-exported-float-global-unreadable": lambda: (lambda end: None if end and end.get("globals", {}).get("g0") == _f64(2.5)
+                                                    else "python target: exported f64 global reads as %s, spec: 2.5" % (
+                                                        end and end.get("globals")))(witness("python", "fglobal")[2]),
+    "py-f32-arithmetic-not-rounded": lambda: _expect("python", "pure", "f32sum", "00000000",
+                                                      "(16777216f + 1f) - 16777216f in f32"),
+    "call-indirect-no-signature-check": lambda: _expect("python", "sig", "ci", "trap",
+                                                        "call_indirect (type (i32)->i32) of a (f32)->i32 function"),
+}
